@@ -73,6 +73,29 @@ DOMAINS = {
 }
 
 
+def _entry_as_lambda(repo, v):
+    """A table entry that is a function given by name (``f`` is ``lambda x: f(x)``) or made by a module-level factory
+    (``def make(w): return lambda x: E`` called with constants: the lambda with the arguments put in), as a lambda."""
+    from ..symexec import subst as _subst
+    defs = {n.name: n for n in repo.tree("constants.py").body if isinstance(n, ast.FunctionDef)}
+    if isinstance(v, ast.Name) and v.id in defs and len(defs[v.id].args.args) == 1:
+        x = ast.Name(id="x", ctx=ast.Load())
+        lam = ast.Lambda(args=ast.arguments(posonlyargs=[], args=[ast.arg(arg="x")], kwonlyargs=[], kw_defaults=[], defaults=[]),
+                         body=ast.Call(func=ast.Name(id=v.id, ctx=ast.Load()), args=[x], keywords=[]))
+        return ast.copy_location(ast.fix_missing_locations(lam), v)
+    if isinstance(v, ast.Call) and isinstance(v.func, ast.Name) and v.func.id in defs and not v.keywords:
+        f = defs[v.func.id]
+        body = [b for b in f.body if not (isinstance(b, ast.Expr) and isinstance(b.value, ast.Constant))]
+        params = [a.arg for a in f.args.args]
+        if len(body) == 1 and isinstance(body[0], ast.Return) and isinstance(body[0].value, ast.Lambda) and len(params) == len(v.args) \
+                and all(try_const(a, default=Ellipsis) is not Ellipsis for a in v.args) and not f.args.vararg and not f.args.kwarg:
+            inner = body[0].value
+            if not ({a.arg for a in inner.args.args} & set(params)):
+                lam = ast.Lambda(args=inner.args, body=_subst(inner.body, dict(zip(params, v.args))))
+                return ast.copy_location(ast.fix_missing_locations(lam), v)
+    return v
+
+
 def helper_env(repo):
     """Module-level helpers of constants.py that the table's lambdas may call, as evaluable closures over the field dict."""
     env = {}
@@ -185,7 +208,32 @@ def run(repo, rep, tier):
                 bad.append(f"field known={present}, entry callable={is_call}" + (f", {fx}" if fx else "") + f": returns `{got}` instead of `{want}`")
     rep.ob("C14.R1", dec, "renderer consults the same table: callable -> call, else strftime; unknown field -> empty text", not bad, "; ".join(bad[:2]), key="C14.R1@renderer")
     fp = repo.func("cell.py", "Formatting.__post_init__")
-    ok = "if el not in DATETIME_FIELD_MAP" in U(fp)
+    # the validator and the new module-level helpers it calls (a helper the confirmed tree does not have is part of its caller)
+    from ..normalize import _pinned_functions
+    mod_defs = {n.name: n for n in repo.tree("cell.py").body if isinstance(n, ast.FunctionDef)}
+    closure, todo = [fp], [fp]
+    while todo:
+        cur_ = todo.pop()
+        for c_ in ast.walk(cur_):
+            if isinstance(c_, ast.Call) and isinstance(c_.func, ast.Name) and c_.func.id in mod_defs and c_.func.id not in _pinned_functions("cell.py") \
+                    and mod_defs[c_.func.id] not in closure:
+                closure.append(mod_defs[c_.func.id])
+                todo.append(mod_defs[c_.func.id])
+    ok = False
+    for f_ in closure:
+        for lp_ in [n for n in ast.walk(f_) if isinstance(n, (ast.For, ast.comprehension))]:
+            tgt_ = U(lp_.target)
+            it_ = lp_.iter
+            if isinstance(it_, ast.Name):
+                d_ = [n for n in ast.walk(f_) if isinstance(n, ast.Assign) and len(n.targets) == 1 and U(n.targets[0]) == it_.id]
+                it_ = d_[0].value if len(d_) == 1 else it_
+            if not U(it_).endswith(".split()"):
+                continue
+            scope_ = lp_ if isinstance(lp_, ast.For) else f_
+            for t_ in ast.walk(scope_):
+                if isinstance(t_, ast.Compare) and len(t_.ops) == 1 and isinstance(t_.ops[0], (ast.In, ast.NotIn)) and U(t_.left) == tgt_ \
+                        and U(t_.comparators[0]) in ("DATETIME_FIELD_MAP", "DATETIME_FIELD_MAP.keys()"):
+                    ok = True
     rep.ob("C14.R1", fp, "format validation on write uses the same table", ok, "", key="C14.R1@validator")
     # the format text the caller gave is validated, never rewritten: it is what is stored and later rendered
     cls_f = repo.cls("cell.py", "Formatting")
@@ -215,6 +263,7 @@ def run(repo, rep, tier):
             rep.ob("C14.R2", v, f"directive {k} -> {sv!r}", ok, "" if ok else f"expected {want!r}: the directive renders another field or padding", key=f"C14.R2@{k}")
             continue
         spec = spec_for(k)
+        v = _entry_as_lambda(repo, v)
         if not isinstance(v, ast.Lambda):
             rep.ob("C14.R3", v, f"directive {k}: table entry is neither a strftime code nor a lambda", False, U(v)[:80], key=f"C14.R3@{k}:shape")
             continue
